@@ -441,6 +441,26 @@ func (r *txRun) admitted(tx *lpb.Transaction) bool {
 	return tw.Chain.SubmitTx(tw.BaseCtx(), CloneTx(tx)) == nil
 }
 
+// admittedViaBlock packs tx (after the award) into a block signed by the chain's producer on a twin of
+// the node and lets the twin process it like a block received from the network.
+func (r *txRun) admittedViaBlock(tx *lpb.Transaction) bool {
+	tw, err := r.n.Twin()
+	if err != nil {
+		panic(err)
+	}
+	defer tw.Drop()
+	time.Sleep(time.Millisecond) // never the award of the instant of an earlier block
+	blk, err := tw.PackBlock(MineOpts{MaxTx: -1, Txs: []*lpb.Transaction{CloneTx(tx)}})
+	if err != nil {
+		return false
+	}
+	blk = CloneBlock(blk)
+	if err := tw.Chain.ProcBlock(tw.BaseCtx(), blk); err != nil {
+		return false
+	}
+	return bytes.Equal(tw.S.GetLatestBlockid(), blk.Blockid)
+}
+
 func (r *txRun) noteDigest(tx *lpb.Transaction, what string) *Violation {
 	d, err := txhash.MakeTxDigestHash(tx)
 	if err != nil {
@@ -487,6 +507,18 @@ func (r *txRun) doUnauthorised(f *TxForm) *Violation {
 		defer tw.Drop()
 		if tw.Chain.SubmitTx(tw.BaseCtx(), CloneTx(tx)) == nil {
 			return r.viol("unauthorised-spend-admitted", "%s was admitted: %s signed by %v", what, descTx(tx), sp.AuthRequire)
+		}
+		// ... and packed into a block by an entitled producer, also flagged as auto-generated
+		for _, auto := range []bool{false, true} {
+			m := CloneTx(tx)
+			if auto {
+				m.Autogen = true
+				m.Txid, _ = txhash.MakeTransactionID(m)
+			}
+			r.rc.St.Probes["unauthorised-spend-tried-through-block"]++
+			if r.admittedViaBlock(m) {
+				return r.viol("unauthorised-spend-admitted", "%s (autogen flag %v) was admitted THROUGH A BLOCK: %s signed by %v", what, auto, descTx(m), sp.AuthRequire)
+			}
 		}
 		return nil
 	}
@@ -674,8 +706,17 @@ func (r *txRun) doForm(f *TxForm) *Violation {
 		if !semantic {
 			return nil
 		}
-		if r.admitted(m) {
-			vi := r.viol("mutated-tx-admitted", "%s form: mutation %s was admitted | original %s | mutant %s", f.Kind, what, descTx(tx), descTx(m))
+		adm, via := r.admitted(m), ""
+		// the other way in: a producer packs the mutant into a block of its own and the node processes
+		// that block (always for the producer-only flags, else one refused mutant in twenty-four)
+		if !adm && (strings.HasPrefix(what, "Autogen") || strings.HasPrefix(what, "Coinbase") || (r.nAdm+int(r.plan.Seed%24))%24 == 0) {
+			r.rc.St.Probes["mutant-tried-through-block"]++
+			if r.admittedViaBlock(m) {
+				adm, via = true, " THROUGH A BLOCK (packed by an entitled producer, processed by Chain.ProcBlock)"
+			}
+		}
+		if adm {
+			vi := r.viol("mutated-tx-admitted", "%s form: mutation %s was admitted%s | original %s | mutant %s", f.Kind, what, via, descTx(tx), descTx(m))
 			if bytes.Equal(semanticBytes(m), semanticBytes(tx)) && stillAuthorised(m) {
 				// known finding: only the signature lists differ and every required signer still has a valid
 				// signature - the node ignores the altered entry (txid malleability), nothing unsigned happens
